@@ -23,20 +23,20 @@ package golang
 //@ ensures [prop-compl] action == ruler.ActionSignBeaconProposal && store_ok && len(rulesData) > 0 && (forall j int :: 0 <= j && j < len(rulesData) ==> rulesData[j] != nil && rulesData[j].Data != nil && len(rulesData[j].PubKey) == 48) && (forall j int, k int :: 0 <= j && j < k && k < len(rulesData) ==> key48(rulesData[j].PubKey) != key48(rulesData[k].PubKey)) && credentials != nil && credentials.Client != "" ==> (forall i int :: 0 <= i && i < len(rulesData) && hastype(rulesData[i].Data, "*rules.SignBeaconProposalData") && old(wmPropOk(bytes(rulesData[i].PubKey))) && propOK(old(wmPropL(bytes(rulesData[i].PubKey))), unbox(rulesData[i].Data, "*rules.SignBeaconProposalData").Slot, prefix4(unbox(rulesData[i].Data, "*rules.SignBeaconProposalData").Domain)) ==> result[i] == rules.APPROVED)
 //@ ensures [dbframe] forall k Bytes :: (forall i int :: !(0 <= i && i < len(rulesData) && ((action == ruler.ActionSignBeaconAttestation && k == attKey(bytes(rulesData[i].PubKey))) || (action == ruler.ActionSignBeaconProposal && k == propKey(bytes(rulesData[i].PubKey)))))) ==> ((k in db) <==> old(k in db)) && db[k] == old(db[k])
 //@ hint-after runRules@1 [heldisdeferred] forall k [48]byte :: deferred()[k] <==> held[k]
-//@ loop #1
+//@ loop #1 over range rulesData
 //@ invariant [range] 0 <= _n && _n <= len(rulesData) && len(results) == len(rulesData) && fresh(results)
 //@ invariant [unknown] forall j int :: 0 <= j && j < _n ==> results[j] == rules.UNKNOWN
-//@ loop #2
+//@ loop #2 over range rulesData
 //@ invariant [range] 0 <= _n && _n <= len(rulesData) && len(results) == len(rulesData) && fresh(results)
 //@ invariant [nonnil] forall j int :: 0 <= j && j < _n ==> rulesData[j] != nil && rulesData[j].Data != nil
 //@ invariant [unknown] forall j int :: 0 <= j && j < len(results) ==> results[j] == rules.UNKNOWN
-//@ loop #3
+//@ loop #3 over range rulesData
 //@ invariant [range] 0 <= _n && _n <= len(rulesData) && pubKeyMap != nil && fresh(pubKeyMap) && len(results) == len(rulesData) && fresh(results)
 //@ invariant [unknown] forall j int :: 0 <= j && j < len(results) ==> results[j] == rules.UNKNOWN
 //@ invariant [seen] forall j int :: 0 <= j && j < _n ==> key48(rulesData[j].PubKey) in pubKeyMap
 //@ invariant [onlyseen] forall k [48]byte :: k in pubKeyMap ==> (exists j int :: 0 <= j && j < _n && k == key48(rulesData[j].PubKey))
 //@ invariant [distinct] forall i int, j int :: 0 <= i && i < j && j < _n ==> key48(rulesData[i].PubKey) != key48(rulesData[j].PubKey)
-//@ loop #4
+//@ loop #4 over range rulesData
 //@ invariant [range] 0 <= _n && _n <= len(rulesData) && prelocked
 //@ invariant [held] forall k [48]byte :: held[k] <==> (exists j int :: 0 <= j && j < _n && k == key48(rulesData[j].PubKey))
 //@ invariant [deferred] forall k [48]byte :: deferred()[k] <==> held[k]
@@ -63,7 +63,7 @@ package golang
 //@ hint-after before:Scatter@1 [bytesdistinct] locking(action) ==> (forall j int, k int :: 0 <= j && j < k && k < len(rulesData) ==> bytes(rulesData[j].PubKey) != bytes(rulesData[k].PubKey))
 //@ hint-after before:Scatter@1 [inj-att] forall a Bytes, b Bytes :: bnorm(a) && bnorm(b) && attKey(a) == attKey(b) ==> a == b
 //@ hint-after before:Scatter@1 [inj-prop] forall a Bytes, b Bytes :: bnorm(a) && bnorm(b) && propKey(a) == propKey(b) ==> a == b
-//@ loop #1
+//@ loop #1 over range rulesData
 //@ invariant [range] 0 <= _n && _n <= len(rulesData) && len(results) == len(rulesData) && fresh(results)
 //@ invariant [unknown] forall j int :: 0 <= j && j < _n ==> results[j] == rules.UNKNOWN
 
@@ -108,7 +108,7 @@ package golang
 //@ ensures-each [prop-compl] action == ruler.ActionSignBeaconProposal && store_ok && credentials != nil && credentials.Client != "" && rulesData[i] != nil && hastype(rulesData[i].Data, "*rules.SignBeaconProposalData") && old(wmPropOk(bytes(rulesData[i].PubKey))) && propOK(old(wmPropL(bytes(rulesData[i].PubKey))), unbox(rulesData[i].Data, "*rules.SignBeaconProposalData").Slot, prefix4(unbox(rulesData[i].Data, "*rules.SignBeaconProposalData").Domain)) ==> results[i] == rules.APPROVED
 //@ ensures-each [att-compl] action == ruler.ActionSignBeaconAttestation && store_ok && credentials != nil && credentials.Client != "" && rulesData[i] != nil && hastype(rulesData[i].Data, "*rules.SignBeaconAttestationData") && old(wmAttOk(bytes(rulesData[i].PubKey))) && attOK(old(wmAttS(bytes(rulesData[i].PubKey))), old(wmAttT(bytes(rulesData[i].PubKey))), unbox(rulesData[i].Data, "*rules.SignBeaconAttestationData").Source.Epoch, unbox(rulesData[i].Data, "*rules.SignBeaconAttestationData").Target.Epoch, prefix4(unbox(rulesData[i].Data, "*rules.SignBeaconAttestationData").Domain)) ==> results[i] == rules.APPROVED
 //@ ensures-each [access] action == ruler.ActionAccessAccount && credentials != nil && credentials.Client != "" && rulesData[i] != nil && hastype(rulesData[i].Data, "*rules.AccessAccountData") ==> results[i] == rules.APPROVED
-//@ loop #1
+//@ loop #1 over for i < offset + entries
 //@ invariant [range] offset <= i && i <= offset + entries
 //@ invariant [verdict] forall j int :: offset <= j && j < i && rulesData[j] != nil ==> results[j] == rules.APPROVED || results[j] == rules.DENIED || results[j] == rules.FAILED
 //@ invariant [access] forall j int :: offset <= j && j < i && action == ruler.ActionAccessAccount && credentials != nil && credentials.Client != "" && rulesData[j] != nil && hastype(rulesData[j].Data, "*rules.AccessAccountData") ==> results[j] == rules.APPROVED
@@ -139,7 +139,7 @@ package golang
 //@ ensures-each [meta] metadatas[i] != nil ==> metadatas[i].PubKey == rulesData[i].PubKey
 //@ ensures-each [data] reqData[i] != nil ==> hastype(rulesData[i].Data, "*rules.SignBeaconAttestationData") && reqData[i] == unbox(rulesData[i].Data, "*rules.SignBeaconAttestationData")
 //@ ensures-each [ok] credentials != nil && credentials.Client != "" && (forall j int :: 0 <= j && j < len(rulesData) ==> rulesData[j].AccountName != "" && hastype(rulesData[j].Data, "*rules.SignBeaconAttestationData")) ==> results[i] == rules.UNKNOWN && metadatas[i] != nil && reqData[i] != nil
-//@ loop #1
+//@ loop #1 over for i < offset + entries
 //@ invariant [range] offset <= i && i <= offset + entries
 //@ invariant [verdict] forall j int :: offset <= j && j < offset + entries ==> results[j] == rules.UNKNOWN || results[j] == rules.FAILED
 //@ invariant [meta] forall j int :: offset <= j && j < offset + entries && metadatas[j] != nil ==> metadatas[j].PubKey == rulesData[j].PubKey
@@ -163,10 +163,10 @@ package golang
 //@ hint-after before:OnSignBeaconAttestations@1 [ready] credentials != nil && credentials.Client != "" && (forall j int :: 0 <= j && j < len(rulesData) ==> rulesData[j].AccountName != "" && hastype(rulesData[j].Data, "*rules.SignBeaconAttestationData")) ==> len(metadatas) == len(reqData) && (forall j int :: 0 <= j && j < len(rulesData) ==> metadatas[j] != nil && reqData[j] != nil && metadatas[j].PubKey == rulesData[j].PubKey && reqData[j] == unbox(rulesData[j].Data, "*rules.SignBeaconAttestationData") && reqData[j].Source != nil && reqData[j].Target != nil)
 //@ hint-after before:OnSignBeaconAttestations@1 [hyp] store_ok && credentials != nil && credentials.Client != "" && (forall j int :: 0 <= j && j < len(rulesData) ==> rulesData[j].AccountName != "" && hastype(rulesData[j].Data, "*rules.SignBeaconAttestationData")) && (forall j int :: 0 <= j && j < len(rulesData) ==> old(wmAttOk(bytes(rulesData[j].PubKey)))) ==> store_ok && len(metadatas) == len(reqData) && (forall j int :: 0 <= j && j < len(reqData) ==> metadatas[j] != nil && reqData[j] != nil && reqData[j].Source != nil && reqData[j].Target != nil && wmAttOk(bytes(metadatas[j].PubKey)))
 //@ hint-after OnSignBeaconAttestations@1 [res-md] store_ok && credentials != nil && credentials.Client != "" && (forall j int :: 0 <= j && j < len(rulesData) ==> rulesData[j].AccountName != "" && hastype(rulesData[j].Data, "*rules.SignBeaconAttestationData")) && (forall j int :: 0 <= j && j < len(rulesData) ==> old(wmAttOk(bytes(rulesData[j].PubKey)))) ==> (forall i int :: 0 <= i && i < len(reqData) && attAdmits(bytes(metadatas[i].PubKey), reqData[i]) ==> result[i] == rules.APPROVED)
-//@ loop #1
+//@ loop #1 over range rulesData
 //@ invariant [range] 0 <= _n && _n <= len(rulesData) && len(results) == len(rulesData) && fresh(results)
 //@ invariant [unknown] forall j int :: 0 <= j && j < _n ==> results[j] == rules.UNKNOWN
-//@ loop #2
+//@ loop #2 over range results
 //@ invariant [range] 0 <= _n && _n <= len(results)
 //@ invariant [nofail] forall j int :: 0 <= j && j < _n ==> results[j] != rules.FAILED
 //@ invariant [allok] credentials != nil && credentials.Client != "" && (forall j int :: 0 <= j && j < len(rulesData) ==> rulesData[j].AccountName != "" && hastype(rulesData[j].Data, "*rules.SignBeaconAttestationData")) ==> (forall k int :: 0 <= k && k < len(rulesData) ==> results[k] == rules.UNKNOWN && metadatas[k] != nil && reqData[k] != nil)
@@ -181,7 +181,7 @@ package golang
 //@ requires [options] forall i int :: 0 <= i && i < len(params) ==> params[i] != nil
 //@ ensures [err] result1 != nil ==> result0 == nil
 //@ ensures [ok] result1 == nil ==> result0 != nil && result0.monitor != nil && result0.rules != nil && result0.locker != nil
-//@ loop #1
+//@ loop #1 over range params
 //@ invariant [range] 0 <= _n && _n <= len(params)
 
 //@ func New
